@@ -55,6 +55,18 @@ CLAIMED = {
                 "Known finding F24: walls + non-diagonal inverse mass are not reversible.",
         "ref": "DESIGN.md section 3 C07",
     },
+    "C15": {
+        "technique": "Advance/AdvanceArith/Pool/RunForGen TLA+ models checked by TLC; every TLC call sequence and cost schedule driven "
+                     "into the real advance / run_for (fake clock) / ChainPool; clock-read and step traces validated by RunFor.tla",
+        "text": "Every call sequence over m in {0,1,7,99,100,101,250} and take_step is executed on all five samplers with a counting "
+                "wrapper (ExactlyRequested, LenAgree); the grouped-loop arithmetic is checked for all n <= 700; run_for is driven by "
+                "TLC-enumerated budgets and per-step cost schedules (20 microseconds to 90 s) and its trace must satisfy "
+                "ExitOnlyAfterBudget, NoStepAfterBudget, StarvationFree; a real ChainPool must equal the serially advanced chains "
+                "under injected delays; PoolEqualsSerial is model-checked over all interleavings.",
+        "note": "Trusted: TLC, the fake clock (time advances only through step costs and 2 microseconds per read). Budgets above "
+                "35 minutes are not enumerated (32-bit microseconds).",
+        "ref": "DESIGN.md section 3 C15",
+    },
     "C08": {
         "technique": "Tempering.tla (master, N workers, FIFO pipes, shutdown event) model-checked by TLC incl. liveness; real "
                      "multi-process ParallelTempering runs under injected delay schedules validated event-by-event by PTTrace.tla",
